@@ -60,6 +60,13 @@ fn st(s: &str) -> &'static str {
     leak(s)
 }
 
+/// from_segments under catch_unwind: it must RETURN (a path or an error); a panic is an observable of its own
+fn from_segments_guarded(ss: Vec<&'static str>, cls: &dyn Fn(&str) -> Value) -> Value {
+    match guarded(move || Path::from_segments(ss)) {
+        Ok(r) => res_from(r, cls),
+        Err(_) => json!({"k": "panic"}),
+    }
+}
 fn res_from(r: Result<Path, PathError>, cls: &dyn Fn(&str) -> Value) -> Value {
     match r {
         Ok(p) => json!({"k": "ok", "segs": p.segments.iter().map(|s| cls(s)).collect::<Vec<_>>()}),
@@ -91,7 +98,8 @@ fn replay(cases: &str, outp: &str) {
             let mut mism: Vec<String> = vec![];
             if c["k"] == "ident" {
                 let s = concretize(&c["s"], rot);
-                let got = Path::from_segments([st(&s)]).is_ok();
+                let s1 = st(&s);
+                let got = matches!(guarded(move || Path::from_segments([s1]).is_ok()), Ok(true));
                 if got != c["ok"].as_bool().unwrap() {
                     mism.push(format!("from_segments([{s:?}]) ok={got} expected {}", c["ok"]));
                 }
@@ -101,7 +109,7 @@ fn replay(cases: &str, outp: &str) {
                 let tab: Vec<(&'static str, &'static str)> =
                     c["tab"].as_array().unwrap().iter().map(|kv| (st(&concretize(&kv[0], rot)), st(&concretize(&kv[1], rot)))).collect();
                 let ss: Vec<&'static str> = segs.iter().map(|s| st(s)).collect();
-                let got = res_from(Path::from_segments(ss.clone()), &back);
+                let got = from_segments_guarded(ss.clone(), &back);
                 if classes_only(&got) != classes_only(&c["from"]) {
                     mism.push(format!("from_segments({segs:?}) = {got} expected {}", c["from"]));
                 }
@@ -174,7 +182,7 @@ fn record(seed: u64, count: usize, path: &str) {
         let segs: Vec<String> = (0..n).map(|_| rand_string(&mut rng)).collect();
         let ss: Vec<&'static str> = segs.iter().map(|s| st(s)).collect();
         let cl: Vec<Value> = segs.iter().map(|s| back(s)).collect();
-        out.put(&json!({"ev": "FromSegments", "segs": cl, "res": res_from(Path::from_segments(ss.clone()), &back)}));
+        out.put(&json!({"ev": "FromSegments", "segs": cl, "res": from_segments_guarded(ss.clone(), &back)}));
         let ident = st(&rand_string(&mut rng));
         // module paths: join of random segments with "::", sometimes with stray colons
         let mut mp = (0..rng.gen_range(0..3)).map(|_| rand_string(&mut rng)).collect::<Vec<_>>().join("::");
